@@ -91,16 +91,17 @@ def _job(job) -> List[Dict[str, Any]]:
                 v = ev.data.get("val")
                 m, fn, ln = where(ev)
                 ok = isinstance(v, Num) and v.rng is not None and v.rng.finite()
-                inst("R8.2", "HOLDS" if ok else ("UNDECIDED" if failed_lemmas else "VIOLATED"), f"stored {ev.data['field']} is finite: {norm_text(ev.node, 60)}",
+                inst("R8.2", "HOLDS" if ok else ("UNDECIDED" if failed_lemmas or I.widened else "VIOLATED"), f"stored {ev.data['field']} is finite: {norm_text(ev.node, 60)}",
                      "" if ok else f"the interval analysis cannot bound the stored {ev.data['field']} ({getattr(v, 'rng', None)}) on the input box ({case}): silent overflow to inf/nan is possible"
-                     + (f" [a relational lemma could not be discharged: {failed_lemmas[0]}]" if failed_lemmas else ""),
+                     + (f" [a relational lemma could not be discharged: {failed_lemmas[0]}]" if failed_lemmas else "")
+                     + (" [a loop was closed by widening: the bound may be an artefact of the analysis]" if I.widened and not failed_lemmas else ""),
                      {"range": str(getattr(v, "rng", None))}, m, fn, ln)
     else:
         nums: List[Num] = []
         _result_degs(I, st, oc.result, nums)
         for v in nums:
             ok = v.rng is not None and v.rng.finite()
-            inst("R8.2", "HOLDS" if ok else "VIOLATED", f"returned numbers of {op} are finite ({variant})", "" if ok else f"the interval analysis gives {v.rng} for a returned number ({case})", {"range": str(v.rng)})
+            inst("R8.2", "HOLDS" if ok else ("UNDECIDED" if I.widened else "VIOLATED"), f"returned numbers of {op} are finite ({variant})", "" if ok else f"the interval analysis gives {v.rng} for a returned number ({case})", {"range": str(v.rng)})
     for k, why in lem.items():
         inst("R8.L", "ASSUMED", f"lemma {k}", why)
     return out
